@@ -778,6 +778,8 @@ func (fr *Frame) exec(in ssa.Instruction, st *State, reach Term) {
 		ln := enc.toIdx(fr.val(x.Len, st).(*FV).Term(), x.Len.Type())
 		cp := enc.toIdx(fr.val(x.Cap, st).(*FV).Term(), x.Cap.Type())
 		fr.oblige("makeslice", reach, mkAnd(enc.idxLe(enc.idxLit(0), ln), enc.idxLe(ln, cp)), "make: 0 <= len <= cap")
+		// runtime.makeslice panics ("len/cap out of range") when cap*elemsize exceeds maxAlloc
+		fr.oblige("makeslice", reach, enc.idxLe(cp, enc.idxLit(maxAllocElems(x.Type().Underlying().(*types.Slice).Elem()))), "make: cap * element size <= 2^48 (maxAlloc)")
 		base := vc.newRef(st, "mk")
 		et := x.Type().Underlying().(*types.Slice).Elem()
 		if !isAggregate(et) {
